@@ -236,9 +236,211 @@ pub fn run_c02(ctx: &Ctx) {
     ctx.assume("not generated: break/continue outside a lexically enclosing loop or across a function/subshell boundary, return outside a function, `! !`, probes of a non-last pipeline stage are ordered only within their own stage");
 }
 
+/// A built-in cannot print its results (standard output closed, or a pipe whose reader is gone):
+/// for a special built-in that is an error of a special built-in - the shell stops, nothing after
+/// it runs, the EXIT trap runs once with a non-zero status; for an ordinary built-in, and for a
+/// special built-in run through `command`, only `$?` is set and execution goes on.
+fn builtin_output_error(ctx: &Ctx) {
+    // (command, preparation, special?, output is larger than a pipe?)
+    const PRINTERS: [(&str, &str, bool, bool); 12] = [
+        ("set", "", true, true),
+        ("set -o", "", true, false),
+        ("set +o", "", true, false),
+        ("export -p", "export big", true, true),
+        ("export", "export big", true, true),
+        ("readonly -p", "readonly big", true, true),
+        ("readonly", "readonly big", true, true),
+        ("trap", "trap \"$big\" USR1", true, true),
+        ("trap -p", "trap \"$big\" USR1", true, true),
+        ("alias", "alias a=\"$big\"", false, true),
+        ("pwd", "", false, false),
+        ("command -v probe", "", false, false),
+    ];
+    let contexts = ["CMD", "{ CMD; }; probe k70", "for v in a; do CMD; probe k70; done", "f() { CMD; probe k70; }; f", "if true; then CMD; fi"];
+    for (cmd, prep, special, large) in PRINTERS {
+        for wrapped in [false, true] {
+            for (fname, tpl) in [("closed", "( BODY ) >&-\nprobe k3 \"$?\"\n"), ("closed-on-the-command", "( BODY )\nprobe k3 \"$?\"\n"), ("broken-pipe", "( BODY ) | :\nprobe k3 \"$?\"\n")] {
+                if fname == "broken-pipe" && !large {
+                    continue;
+                }
+                for cxt in contexts {
+                    let mut c = if wrapped { format!("command {cmd}") } else { cmd.to_string() };
+                    if fname == "closed-on-the-command" {
+                        c.push_str(" >&-");
+                    }
+                    let body = format!("{prep}{}trap 'probe k99 \"$?\"' EXIT; {}; probe k80 \"$?\"", if prep.is_empty() { "" } else { "; " }, cxt.replace("CMD", &c));
+                    let script = format!("big=$(gen 3000 1)\n{}", tpl.replace("BODY", &body));
+                    let out = crate::vsh::run_script(&script, Strategy::Fifo);
+                    ctx.eval();
+                    ctx.count("builtin_output_error_cases", 1);
+                    let aborts = special && !wrapped;
+                    let evs: Vec<(String, String)> = out
+                        .events
+                        .iter()
+                        .filter(|e| e.kind == "probe")
+                        .map(|e| (e.args.first().cloned().unwrap_or_default(), e.args.get(1).cloned().unwrap_or_default()))
+                        .collect();
+                    let count = |k: &str| evs.iter().filter(|(i, _)| i == k).count();
+                    let val = |k: &str| evs.iter().find(|(i, _)| i == k).map(|(_, v)| v.clone()).unwrap_or_default();
+                    let mut problems = Vec::new();
+                    if out.end != crate::vsh::End::Done {
+                        problems.push(format!("did not terminate: {:?}", out.end));
+                    }
+                    if aborts {
+                        if count("k70") + count("k80") > 0 {
+                            problems.push("commands after the failing special built-in ran".into());
+                        }
+                    } else {
+                        if count("k80") != 1 {
+                            problems.push("execution did not go on after the failing command".into());
+                        } else if val("k80") == "0" && cxt == "CMD" {
+                            problems.push("$? is 0 after the failing command".into());
+                        }
+                    }
+                    if count("k99") != 1 {
+                        problems.push(format!("EXIT trap ran {} times", count("k99")));
+                    } else if aborts && val("k99") == "0" {
+                        problems.push("EXIT trap saw $?=0".into());
+                    }
+                    if aborts && fname != "broken-pipe" && (count("k3") != 1 || val("k3") == "0") {
+                        problems.push(format!("exit status of the aborted subshell: {:?}", val("k3")));
+                    }
+                    if problems.is_empty() {
+                        ctx.nontrivial_str(&format!("outerr|{cmd}|{wrapped}|{fname}|{cxt}"));
+                    } else {
+                        ctx.violation(
+                            format!("builtin-output-error:{}:{fname}", if aborts { "special" } else if special { "command-wrapped" } else { "ordinary" }),
+                            format!("`{c}` cannot print its results ({fname}): {}\nscript:\n{script}events: {evs:?}\nstderr:\n{}", problems.join("; "), out.err()),
+                        );
+                    }
+                }
+            }
+        }
+    }
+}
+
+/// The stock shell binary (`yash_cli::main`, on the real system; the harness shell has its own
+/// copy of the top-level driver): every kind of abort x syntactic context x way of passing the
+/// script. Observed through `/bin/echo`: nothing after the abort point runs, the EXIT trap runs
+/// exactly once and sees the failing status, which is also the exit status of the process.
+fn stock_shell_aborts(ctx: &Ctx) {
+    // (name, command, exact status if pinned, aborts the shell?)
+    const CASES: [(&str, &str, Option<i32>, bool); 17] = [
+        ("assignment-error", "ro=2", None, true),
+        ("special-builtin-error:export", "export ro=2", None, true),
+        ("special-builtin-error:dot", ". /nonexistent/file", None, true),
+        ("special-builtin-error:shift", "shift 5", None, true),
+        ("special-builtin-error:unset", "unset ro", None, true),
+        ("special-builtin-error:option", "readonly -x", None, true),
+        ("special-builtin-error:redirection", "exec 3</nonexistent/file", None, true),
+        ("exec-failure", "exec /nonexistent/cmd", Some(127), true),
+        ("expansion-error", ": ${uu?}", None, true),
+        ("arithmetic-error", ": $((1/0))", None, true),
+        ("errexit", "set -e; /bin/sh -c \"exit 7\"", Some(7), true),
+        ("exit", "exit 3", Some(3), true),
+        ("syntax-error", "fi", None, true),
+        ("subshell-confined", "( ro=2 )", None, false),
+        ("command-wrapped", "command export ro=2", None, false),
+        ("ordinary-redirection-error", "/bin/echo x </nonexistent/file", None, false),
+        ("command-not-found", "/nonexistent/cmd", None, false),
+    ];
+    let contexts = ["CMD", "{ CMD\n}", "f() { CMD\n}; f", "for v in a; do CMD\ndone", "if true; then CMD\nfi", "eval 'CMD'", "while true; do CMD\nbreak; done"];
+    let Some(stock) = std::env::current_exe().ok().and_then(|e| e.parent().map(|d| d.join("yash3w"))).filter(|p| p.exists()) else {
+        ctx.inconclusive.fetch_add(1, std::sync::atomic::Ordering::Relaxed);
+        return;
+    };
+    let jobs: Vec<(usize, usize, usize)> = (0..CASES.len()).flat_map(|c| (0..contexts.len()).flat_map(move |x| (0..3usize).map(move |m| (c, x, m)))).collect();
+    let (jobs, stock, contexts) = (&jobs, &stock, &contexts);
+    ctx.par_for(
+        jobs.len(),
+        |i| {
+            let (c, x, mode) = jobs[i];
+            let (name, cmd, exact, aborts) = CASES[c];
+            let cxt = contexts[x];
+            // (a syntax error inside a compound command or eval string is another program: the whole
+            // compound command is rejected before any of it runs)
+            if name == "syntax-error" && cxt != "CMD" {
+                return;
+            }
+            let script = format!("readonly ro=1\ntrap '/bin/echo EXIT $?' EXIT\n/bin/echo before\n{}\n/bin/echo after\n", cxt.replace("CMD", cmd));
+            let dir = std::env::temp_dir().join(format!("verif-c10s-{}-{i}", std::process::id()));
+            let _ = std::fs::remove_dir_all(&dir);
+            if std::fs::create_dir_all(&dir).is_err() || std::fs::write(dir.join("s.sh"), &script).is_err() {
+                ctx.inconclusive.fetch_add(1, std::sync::atomic::Ordering::Relaxed);
+                return;
+            }
+            let mut command = std::process::Command::new(stock);
+            command.current_dir(&dir).env_clear().env("PATH", "/bin:/usr/bin").env("LANG", "C");
+            let mname = ["script file", "-c string", "standard input"][mode];
+            match mode {
+                0 => {
+                    command.arg("s.sh").stdin(std::process::Stdio::null());
+                }
+                1 => {
+                    command.args(["-c", &script]).stdin(std::process::Stdio::null());
+                }
+                _ => {
+                    command.stdin(std::fs::File::open(dir.join("s.sh")).unwrap());
+                }
+            }
+            let out = command.output();
+            let _ = std::fs::remove_dir_all(&dir);
+            let Ok(out) = out else {
+                ctx.inconclusive.fetch_add(1, std::sync::atomic::Ordering::Relaxed);
+                return;
+            };
+            ctx.eval();
+            ctx.count("stock_shell_runs", 1);
+            let text = String::from_utf8_lossy(&out.stdout).into_owned();
+            let lines: Vec<&str> = text.lines().collect();
+            let code = out.status.code();
+            let mut problems = Vec::new();
+            let exits: Vec<&str> = lines.iter().filter_map(|l| l.strip_prefix("EXIT ")).collect();
+            if lines.first() != Some(&"before") {
+                problems.push("the commands before the abort point did not run".to_string());
+            }
+            if aborts {
+                if lines.iter().any(|l| *l == "after") {
+                    problems.push("`after` ran after the abort point".into());
+                }
+                match exact {
+                    Some(e) if code != Some(e) => problems.push(format!("exit status {code:?}, expected {e}")),
+                    None if code == Some(0) || code.is_none() => problems.push(format!("exit status {code:?}, expected non-zero")),
+                    _ => {}
+                }
+            } else if !lines.iter().any(|l| *l == "after") || code != Some(0) {
+                problems.push(format!("execution did not go on to the end (exit status {code:?})"));
+            }
+            let trap_problem = if exits.len() != 1 {
+                Some(format!("EXIT trap ran {} times", exits.len()))
+            } else if Some(exits[0].to_string()) != code.map(|c| c.to_string()) {
+                Some(format!("EXIT trap saw $?={}, exit status {code:?}", exits[0]))
+            } else {
+                None
+            };
+            let ctxt = |p: &str| format!("stock shell, {mname}, {name} in context `{}`: {p}\nscript:\n{script}stdout:\n{text}stderr:\n{}", cxt.replace('\n', "; "), String::from_utf8_lossy(&out.stderr));
+            if !problems.is_empty() {
+                ctx.violation(format!("stock-shell:{name}"), ctxt(&problems.join("; ")));
+            }
+            if let Some(t) = trap_problem {
+                if name == "exec-failure" && exits.is_empty() {
+                    ctx.violation("stock-shell:exec-failure:no-exit-trap", ctxt(&t));
+                } else {
+                    ctx.violation(format!("stock-shell:{name}:exit-trap"), ctxt(&t));
+                }
+            } else if problems.is_empty() {
+                ctx.nontrivial_str(&format!("stock|{name}|{cxt}|{mode}"));
+            }
+        },
+        |i, msg| ctx.violation("harness-panic", format!("stock-shell case {i}: {msg}")),
+    );
+}
+
 pub fn run_c10(ctx: &Ctx) {
+    stock_shell_aborts(ctx);
     systematic(ctx, true);
     trap_vs_abort(ctx);
+    builtin_output_error(ctx);
     *ctx.exhaustive.lock().unwrap() = Some(true);
     ctlrun::drive(ctx, if ctx.quick() { 150_000 } else { 3_000_000 }, C10_CFG, "C10", true, true, 0, 77);
     ctx.assume("statuses of shell errors are only required to be non-zero (the model carries a symbolic non-zero status)");
